@@ -159,7 +159,7 @@ def operator_trace(R, spec, repkind, quick):
         b.dispose()
 
 
-def step_trace(R, spec, repkind, stepname, mkstep, quick, multi=False, nan=False):
+def step_trace(R, spec, repkind, stepname, mkstep, quick, multi=False, nan=False, parallel=False):
     b = GR.build(spec)
     try:
         g = extract_grammar(b.considered, b.start)
@@ -175,6 +175,9 @@ def step_trace(R, spec, repkind, stepname, mkstep, quick, multi=False, nan=False
         else:
             problem = SingleObjectiveProblem(lambda p: float(value_of(p)))
         evaluator = SequentialEvaluator()
+        if parallel:
+            from geneticengine.evaluation.parallel import ParallelEvaluator
+            evaluator = ParallelEvaluator()
         reg = Registry([problem])
         n = 6
         pop = []
